@@ -25,7 +25,7 @@ CONSTANTS
     DeliveryMenu(_),   \* sent -> set of delivery descriptors (see Deliver)
     ExportMenu,        \* set of <<exporter_context, L>>
     ShotSMenu(_),      \* ctx -> set of [p, pt, aad]: single-shot seals
-    ShotRMenu(_),      \* shots -> set of [p, d]: single-shot opens (d a delivery descriptor)
+    ShotRMenu(_, _),   \* ctx, shots -> set of [p, d]: single-shot opens (d a delivery descriptor)
     MaxSeals, MaxOpens, MaxExports, MaxSetSeq, MaxShots,
     OvfFirstInOpen,    \* TRUE: allocating open checks the latch before the length (see D5)
     RecordHist         \* TRUE: keep the whole behaviour in `hist` (generation runs only)
@@ -390,7 +390,7 @@ Next ==
     \/ \E c \in Receivers, d \in DeliveryMenu(sent), f \in FormMenu : Open(c, d, f)
     \/ \E c \in Live, e \in ExportMenu : Export(c, e[1], e[2])
     \/ \E m \in ShotSMenu(ctx), f \in FormMenu : SingleShotSeal(m, f)
-    \/ \E m \in ShotRMenu(shots), f \in FormMenu : SingleShotOpen(m, f)
+    \/ \E m \in ShotRMenu(ctx, shots), f \in FormMenu : SingleShotOpen(m, f)
 
 Spec == Init /\ [][Next]_vars
 
